@@ -1,6 +1,7 @@
 package encryption
 
 import (
+	"os"
 	"crypto/cipher"
 	"crypto/rand"
 	"errors"
@@ -275,6 +276,34 @@ func VerifC17Batch() {
 		if err == nil {
 			vAssert(vEq(out, vals[i]), "every message of a batch reads back as its own value")
 		}
+	}
+	vCover("done")
+}
+
+// VerifC17MasterKeyWhole: "sealed under a different master key yields an
+// error" needs every byte of the configured master key to matter. The real
+// NewLocalEncryptionHandler runs with LIFTBRIDGE_ENCRYPTION_KEY set to a
+// 32-byte key; the key handed to the key
+// wrapper is recorded: it is the configured key, whole and unchanged. (That the
+// key wrapper itself depends on every key byte is AES-KWP's business, a
+// stand-in here.)
+func VerifC17MasterKeyWhole() {
+	var seen [][]byte
+	vIntercept("github.com/google/tink/go/kwp/subtle.NewKWP", func(key []byte) (*subtle.KWP, error) {
+		seen = append(seen, append([]byte{}, key...))
+		if len(key) != 16 && len(key) != 32 {
+			return nil, errors.New("kwp: invalid AES key size")
+		}
+		return &subtle.KWP{}, nil
+	})
+	want := os.Getenv(masterKeyVarName)
+	vAssert(len(want) == 32, "the harness environment configures a 32-byte master key")
+	h, err := NewLocalEncryptionHandler()
+	vAssert(err == nil, "the handler is built")
+	vAssert(h != nil, "the handler is built")
+	vAssert(len(seen) == 1, "the key wrapper is built once")
+	if len(seen) == 1 {
+		vAssert(string(seen[0]) == want, "the key-wrapping key is the configured master key, whole and unchanged")
 	}
 	vCover("done")
 }
